@@ -105,6 +105,8 @@ def main(argv=None):
     ap.add_argument('--tier', default=os.environ.get('VERIF_TIER', 'quick'), choices=['quick', 'thorough'])
     ap.add_argument('--replay')
     ap.add_argument('--only')
+    ap.add_argument('--no-evidence', action='store_true')
+    ap.add_argument('--no-validate', action='store_true')
     a = ap.parse_args(argv)
     seed = int(os.environ.get('VERIF_SEED', '0') or 0)
     if a.replay:
@@ -155,7 +157,7 @@ def main(argv=None):
           f"known={len(known_hit)} wall={wall:.1f}s")
     for s in incon[:40]:
         print('  inconclusive:', s)
-    if not a.only:
+    if not a.only and not a.no_evidence:
         ev = dict(property_id='C10', tier=a.tier, seed=seed, level='other', wall_s=round(wall, 2), violations=len(violations),
                   coverage=dict(
                       explanation=('C10: CrossHair (symbolic execution of Python with z3) on contracts that drive the real SMUserList methods '
